@@ -17,6 +17,7 @@ ANCHORS = ['pycaption.scc:SCCWriter.write', 'pycaption.scc:SCCWriter._layout_lin
            'pycaption.scc:SCCWriter._text_to_code', 'pycaption.scc:SCCWriter._print_character',
            'pycaption.scc:SCCWriter._maybe_align', 'pycaption.scc:SCCWriter._maybe_space',
            'pycaption.scc:SCCWriter._format_timestamp']
+THOROUGH_SCALE = 2        # random budgets of the thorough tier are multiplied by this
 REQUIRE = {'sets_written': 100, 'captions_read_back': 200, 'just_feasible_spacings': 30, 'long_words': 30,
            'wrapped_lines': 50, 'bytes_parity_checked': 5000, 'rows_decoded': 300, 'four_or_more_rows': 20,
            'edm_line_inside_next_load_window': 5, 'captions_filling_all_15_rows': 10}
